@@ -19,7 +19,10 @@ RULE = ("cases = (trajectory of 2..500 poses [+ second trajectory], plot mode, l
         "and the label strings are read back; compared exactly (as rationals) with the series of the Lean model (only the tips of "
         "the coordinate-frame markers of the random stream to 64 ulp: numpy's dot may fuse); trajectories built through the constructor "
         "from int64/int32/float32/float64 position arrays (mixed pairs, both argument orders, offsets ~5e5, int colour/error arrays) are "
-        "compared with the model fed the exact rational value of each input element; all 7 modes x 4 units enumerated "
+        "compared with the model fed the exact rational value of each input element (also strided / Fortran / read-only arrays and lists, "
+        "pre-read caches); half of the cases replay an object-reuse history (speeds -> traj_xyz twice -> traj_rpy -> speeds twice -> traj "
+        "twice on one Axes) where every call is judged on the object's own data; trajectories() with dict of 2/3, list of 3, single object and "
+        "adversarial names; all 7 modes x 4 units enumerated "
         "first, then random combinations; non-trivial = at least 3 poses and not all coordinates equal; distinct by content hash")
 
 MODES = ["xy", "xz", "yx", "yz", "zx", "zy", "xyz"]
@@ -110,7 +113,11 @@ def gen_case(r, grid, n, mode=None, unit=None):
             "unit": unit or r.choice(list(UNITS)), "pos": pos, "rot": rot,
             "stamps": stamps if has_stamps else None, "start": start, "markers": r.random() < 0.6, "scale": scale,
             "pos2": pos2, "arr": arr, "amin": min(arr), "amax": max(arr) + (0.0 if r.random() < 0.5 else 1.0),
-            "err": err, "err_x": err_x, "cumulative": r.random() < 0.3, "via_trajectories": r.random() < 0.3,
+            "err": err, "err_x": err_x, "cumulative": r.random() < 0.3,
+            "via_trajectories": r.choice([False] * 6 + [True, True, "dict3", "list3", "single"]),
+            "names": r.sample(["est", "a_b", "\u00fc x", "1e3", " lead", "b.tum", "-1", "x" * 40], 3),
+            "preread": r.sample(["positions_xyz", "orientations_quat_wxyz", "poses_se3", "distances", "check", "timestamps"], r.randint(0, 3)),
+            "stamps_readonly": r.random() < 0.15, "reuse": r.random() < 0.5,
             "step": step, "ncol": ncol, "clc_n": clc_n, "bad_unit": r.choice(NON_LENGTH) if r.random() < 0.05 else None}
 
 
@@ -141,6 +148,7 @@ def gen_typed_case(r, mode, dt1, dt2):
     offset = r.choice([0, 0, 450000, 5400000 // 8])
     c["kind"] = "typed"
     c["dtypes"] = [dt1, dt2]
+    c["layouts"] = [r.choice([None, "strided", "fortran", "readonly", "list"]), r.choice([None, "strided", "fortran", "readonly", "list"])]
     c["pos"] = typed_positions(r, n, dt1, offset)
     c["pos2"] = typed_positions(r, n, dt2, offset)
     c["rot"] = [[1.0, 0.0, 0.0, 0.0, 1.0, 0.0, 0.0, 0.0, 1.0] for _ in range(n)]
@@ -171,10 +179,10 @@ def gen_cases(ctx):
                 yield gen_typed_case(r, mode, dt1, dt2)
     n_grid, n_rand = (110, 110) if not ctx.thorough else (900, 900)
     for k in range(n_grid):
-        yield gen_case(r, True, r.choice([2, 3, 3, 4, 5, 8, 13, r.randint(2, 40)]))
+        yield gen_case(r, True, r.choice([2, 3, 3, 4, 5, 7, 8, 9, 13, 15, 16, 17, 31, 32, 33, r.randint(2, 40)]))
     for k in range(n_rand):
         big = r.random() < (0.04 if not ctx.thorough else 0.1)
-        yield gen_case(r, False, r.randint(200, 500) if big else r.choice([2, 3, 4, 7, r.randint(2, 60)]))
+        yield gen_case(r, False, r.choice([255, 256, 257, 500, r.randint(200, 500)]) if big else r.choice([2, 3, 4, 7, 8, 9, 63, 64, 65, r.randint(2, 60)]))
 
 
 # ----------------------------------------------------------------------------- implementation side
@@ -182,10 +190,20 @@ def fl(a):
     return [float(x) for x in np.asarray(a, dtype=float).ravel()]
 
 
-def make_traj(pos, rot, stamps, dtype=None):
+def make_traj(pos, rot, stamps, dtype=None, layout=None):
     from evo.core.trajectory import PosePath3D, PoseTrajectory3D
     if dtype is not None:       # constructor route: the caller's array type is kept by PosePath3D
         xyz = np.array(pos, dtype=dtype)
+        if layout == "strided":         # a non-contiguous view into a larger buffer
+            big = np.zeros((2 * len(pos), 6), dtype=dtype)
+            big[::2, ::2] = xyz
+            xyz = big[::2, ::2]
+        elif layout == "fortran":
+            xyz = np.asfortranarray(xyz)
+        elif layout == "readonly":
+            xyz.setflags(write=False)
+        elif layout == "list":
+            xyz = [list(map(xyz.dtype.type, p)) for p in pos]
         quat = np.array([[1.0, 0.0, 0.0, 0.0]] * len(pos))
         if stamps is None:
             return PosePath3D(positions_xyz=xyz, orientations_quat_wxyz=quat)
@@ -240,8 +258,16 @@ def run_impl_(case):
     mode = plot.PlotMode[case["mode"]]
     unit = Unit[case["unit"]]
     dts = case.get("dtypes") or [None, None]
-    tr = make_traj(case["pos"], case["rot"], case["stamps"], dts[0])
-    tr2 = make_traj(case["pos2"], case["rot"][:len(case["pos2"])], None, dts[1])
+    lay = case.get("layouts") or [None, None]
+    tr = make_traj(case["pos"], case["rot"], case["stamps"], dts[0], lay[0])
+    tr2 = make_traj(case["pos2"], case["rot"][:len(case["pos2"])], None, dts[1], lay[1])
+    if case.get("stamps_readonly") and case["stamps"] is not None:
+        tr.timestamps.setflags(write=False)
+    for attr in case.get("preread") or []:        # L4: caches materialised before the calls under test
+        try:
+            getattr(tr, attr)() if attr == "check" else getattr(tr, attr)
+        except Exception:  # noqa: BLE001
+            pass
 
     def guarded(name, f):
         try:
@@ -260,8 +286,12 @@ def run_impl_(case):
 
     def f_traj():
         fig = plt.figure()
-        if case["via_trajectories"]:
-            plot.trajectories(fig, {"est": tr, "other": tr2}, mode, plot_start_end_markers=case["markers"], length_unit=unit)
+        via = case["via_trajectories"]
+        if via:
+            names = case.get("names") or ["est", "other", "third"]
+            arg = {"dict3": {names[0]: tr, names[1]: tr2, names[2]: tr}, "list3": [tr, tr2, tr], "single": tr}.get(
+                via, {names[0]: tr, names[1]: tr2})
+            plot.trajectories(fig, arg, mode, plot_start_end_markers=case["markers"], length_unit=unit)
             ax = fig.axes[0]
             nlines = 2
         else:
@@ -270,8 +300,10 @@ def run_impl_(case):
             nlines = 1
         d = {"labels": axis_labels(ax), "nlines": len(ax.lines), "line": line_data(ax.lines[0]),
              "line_label": ax.lines[0].get_label(), "ncoll": len(ax.collections)}
-        if nlines == 2 and len(ax.lines) == 2:
+        if nlines == 2 and len(ax.lines) >= 2:
             d["line2"] = line_data(ax.lines[1])
+        d["all_lines"] = [line_data(ln) for ln in ax.lines]
+        d["all_labels"] = [ln.get_label() for ln in ax.lines]
         if len(ax.collections) >= 2:
             d["start"] = scatter_point(ax.collections[0])
             d["end"] = scatter_point(ax.collections[1])
@@ -362,6 +394,37 @@ def run_impl_(case):
         out["err"] = {"x": fl(ax.lines[0].get_xdata(orig=True)), "y": fl(ax.lines[0].get_ydata(orig=True)),
                       "labels": [ax.get_xlabel(), ax.get_ylabel()]}
     guarded("err", f_err)
+
+    def f_reuse():
+        """L1: the same trajectory object / the same Axes across several calls; each call judged on the object's own data"""
+        d = {}
+        if case["stamps"] is not None:
+            fig = plt.figure()
+            ax = fig.add_subplot(111)
+            plot.speeds(ax, tr, start_timestamp=case["start"])
+            d["speeds1"] = [fl(ax.lines[0].get_xdata(orig=True)), fl(ax.lines[0].get_ydata(orig=True))]
+        fig, axarr = plt.subplots(3)
+        plot.traj_xyz(axarr, tr, start_timestamp=case["start"], length_unit=unit)
+        plot.traj_xyz(axarr, tr, start_timestamp=case["start"], length_unit=unit)          # same axes twice
+        d["xyz"] = [[fl(ln.get_xdata(orig=True)), fl(ln.get_ydata(orig=True))] for a in axarr for ln in a.lines]
+        fig, axarr = plt.subplots(3)
+        plot.traj_rpy(axarr, tr, start_timestamp=case["start"])
+        d["rpy_x"] = [fl(a.lines[0].get_xdata(orig=True)) for a in axarr]
+        if case["stamps"] is not None:
+            fig = plt.figure()
+            ax = fig.add_subplot(111)
+            plot.speeds(ax, tr, start_timestamp=case["start"])
+            plot.speeds(ax, tr, start_timestamp=case["start"])
+            d["speeds2"] = [[fl(ln.get_xdata(orig=True)), fl(ln.get_ydata(orig=True))] for ln in ax.lines]
+        fig = plt.figure()
+        ax = plot.prepare_axis(fig, mode, 111, unit)
+        plot.traj(ax, mode, tr, "-", "black", "a")
+        plot.draw_correspondence_edges(ax, tr, tr2, mode) if len(case["pos2"]) == len(case["pos"]) else None
+        plot.traj(ax, mode, tr, "-", "red", "b")
+        d["traj_twice"] = [line_data(ln) for ln in ax.lines]
+        out["reuse"] = d
+    if case.get("reuse", True):
+        guarded("reuse", f_reuse)
     return out
 
 
@@ -476,7 +539,8 @@ def judge(ctx, case, impl, outs):
             pts2 = chunks(rats(o["traj2"]), d)
             if [fr(a) for a in t["line2"]] != [[p[c] for p in pts2] for c in range(d)]:
                 differs("trajectories(): second line", t["line2"], pts2)
-        exp_coll = (2 if case["markers"] else 0) * (2 if case["via_trajectories"] else 1)
+        ntr = {False: 1, True: 2, "dict3": 3, "list3": 3, "single": 1}[case["via_trajectories"]]
+        exp_coll = (2 if case["markers"] else 0) * ntr
         if t["ncoll"] != exp_coll:
             differs("number of marker collections", t["ncoll"], exp_coll)
         if case["markers"] and "start" in t:
@@ -593,6 +657,19 @@ def judge(ctx, case, impl, outs):
         ms = parse_series(o["err"])
         if fr(s["x"]) != ms[0] or fr(s["y"]) != ms[1]:
             differs("error_array series", [s["x"], s["y"]], ms)
+    ru = impl.get("reuse")
+    if isinstance(ru, dict):
+        mx = parse_series(o["xyz"])
+        for j, (x, y) in enumerate(ru["xyz"]):
+            if fr(x) != mx[0] or fr(y) != mx[1 + j // 2]:
+                differs(f"object reuse: traj_xyz line {j} after speeds() on the same trajectory", [x[:4], y[:4]], [mx[0][:4], mx[1 + j // 2][:4]])
+                break
+        if "speeds2" in ru and isinstance(impl.get("speeds"), dict):
+            msx = parse_series(o["speeds"])
+            for x, y in [ru["speeds1"]] + ru["speeds2"]:
+                if fr(x) != msx[0] or fr(y) != msx[1]:
+                    differs("object reuse: repeated speeds() on the same trajectory", [x[:4], y[:4]], [msx[0][:4], msx[1][:4]])
+                    break
     # ---- oracle: the property sentence on evo's artists, independent of evo's tables and of the model
     oracle(ctx, case, impl)
     # ---- bookkeeping
@@ -601,6 +678,9 @@ def judge(ctx, case, impl, outs):
     ctx.count("dist", case["kind"])
     if case.get("dtypes"):
         ctx.count("dist", "dtypes:" + "/".join(case["dtypes"]))
+        ctx.count("dist", "layouts:" + "/".join(str(x) for x in case.get("layouts") or []))
+    ctx.count("dist", f"via_trajectories:{case['via_trajectories']}")
+    ctx.count("branch", "reuse-" + ("done" if isinstance(impl.get("reuse"), dict) else "failed" if case.get("reuse", True) else "not-run"))
     ctx.count("dist", "timestamps" if case["stamps"] is not None else "no-timestamps")
     ctx.count("dist", "start:" + ("none" if case["start"] is None else "zero" if case["start"] == 0 else "given"))
     ctx.count("dist", "n" + ("<=8" if n <= 8 else "<=60" if n <= 60 else ">=200"))
@@ -662,6 +742,12 @@ def oracle(ctx, case, impl):
             ctx.fail(case, "trajectory-line-at-own-coordinates", f"mode {m}: line data differ from positions[:, {ax_idx}]", tags)
         if "line2" in t and t["line2"] != [[p[i] for p in pos2] for i in ax_idx]:
             ctx.fail(case, "trajectory-line-at-own-coordinates", f"mode {m}: second trajectory's line data differ", tags)
+        via = case["via_trajectories"]
+        seq = {False: [pos], True: [pos, pos2], "dict3": [pos, pos2, pos], "list3": [pos, pos2, pos], "single": [pos]}[via]
+        if t.get("all_lines") is not None and t["all_lines"] != [[[p[i] for p in q] for i in ax_idx] for q in seq]:
+            ctx.fail(case, "trajectory-line-at-own-coordinates", f"mode {m}: trajectories() ({via}): the lines are not the given trajectories in order", tags)
+        if via in (True, "dict3") and t.get("all_labels") != (case.get("names") or ["est", "other", "third"])[:len(seq)]:
+            ctx.fail(case, "trajectory-line-at-own-coordinates", f"trajectories(): labels {t.get('all_labels')} are not the dictionary keys", tags)
         if case["markers"]:
             if "start" not in t:
                 ctx.fail(case, "start-end-markers", "markers requested but not drawn", tags)
@@ -772,6 +858,21 @@ def oracle(ctx, case, impl):
             ctx.fail(case, "speed-against-time", f"labels {s['labels']}", tags)
     elif s == "E_PLOT":
         ctx.fail(case, "speed-against-time", "speeds refused a trajectory with timestamps", tags)
+    ru = impl.get("reuse")
+    if isinstance(ru, dict):
+        want_line = [[p[i] for p in pos] for i in ax_idx]
+        if any(x != tx or y != [p[j // 2] for p in pos] for j, (x, y) in enumerate(ru["xyz"])) or len(ru["xyz"]) != 6:
+            ctx.fail(case, "xyz-against-time", "a trajectory plotted again (after speeds(), twice on the same axes) is not shown at its own "
+                     "coordinates against its own timestamps", tags)
+        if any(x != tx for x in ru["rpy_x"]):
+            ctx.fail(case, "rpy-against-time", "traj_rpy after speeds()/traj_xyz on the same trajectory: x values are not its timestamps", tags)
+        if "speeds2" in ru:
+            for x, y in [ru["speeds1"]] + ru["speeds2"]:
+                if x != tx[1:] or y != ru["speeds1"][1]:
+                    ctx.fail(case, "speed-against-time", "speeds() repeated on the same trajectory: x is not the newer stamp / values changed", tags)
+                    break
+        if ru["traj_twice"] != [want_line, want_line]:
+            ctx.fail(case, "trajectory-line-at-own-coordinates", "the same trajectory drawn twice into one Axes: line data differ", tags)
     s = impl.get("err")
     if isinstance(s, dict):
         ex = case["err_x"] if case["err_x"] is not None else [float(k) for k in range(n)]
@@ -821,7 +922,10 @@ def evaluate(ctx, cases):
     outs = core.run_driver(lines)
     k = len(OPS)
     for j, c in enumerate(cases):
-        judge(ctx, c, impls[j], outs[k * j: k * j + k])
+        try:
+            judge(ctx, c, impls[j], outs[k * j: k * j + k])
+        except Exception as e:  # noqa: BLE001 -- unreadable artist data is an oracle failure, not a harness crash
+            ctx.fail(c, "artist-data-readable", f"{type(e).__name__}: {e}"[:300], {"mode": c["mode"]})
 
 
 def check(ctx):
